@@ -103,6 +103,79 @@ theorem b64enc_safe : ∀ (bs : B), ∀ x ∈ b64enc bs, x < 128 ∧ 32 < x
     · exact enc6_safe _
     · exact b64enc_safe rest x hx
 
+/-! ### several keys -/
+
+def keysOf (m : MD) : List B := m.map (·.1)
+
+theorem addValFront_new (m : MD) (k v : B) (h : k ∉ keysOf m) : asMetadata.addValFront m k v = m ++ [(k, [v])] := by
+  induction m with
+  | nil => rfl
+  | cons e r ih =>
+    obtain ⟨k', vs⟩ := e
+    simp [keysOf] at h
+    have hne : ¬ k' = k := fun he => h.1 he.symm
+    simp only [asMetadata.addValFront, hne, if_false, List.cons_append]
+    rw [ih (by simpa [keysOf] using h.2)]
+
+theorem addValFront_last (m : MD) (k v : B) (vs : List B) (h : k ∉ keysOf m) :
+    asMetadata.addValFront (m ++ [(k, vs)]) k v = m ++ [(k, v :: vs)] := by
+  induction m with
+  | nil => simp [asMetadata.addValFront]
+  | cons e r ih =>
+    obtain ⟨k', vs'⟩ := e
+    simp [keysOf] at h
+    have hne : ¬ k' = k := fun he => h.1 he.symm
+    simp only [List.cons_append, asMetadata.addValFront, hne, if_false]
+    rw [ih (by simpa [keysOf] using h.2)]
+
+theorem asMetadata_step (k ev dv : B) (hs : Headers) (m : MD) (hl : lower k = k)
+    (hd : if isBin k = true then b64dec ev = some dv else ev = dv)
+    (h : asMetadata hs = some m) : asMetadata ((k, ev) :: hs) = some (asMetadata.addValFront m k dv) := by
+  simp only [asMetadata, h, hl]
+  cases hb : isBin k with
+  | false => simp [hb] at hd; simp [hd]
+  | true => simp [hb] at hd; simp [hd]
+
+/-- the header lines of one more key, in front of headers that decode to `m0` without that key -/
+theorem asMetadata_block (k : B) (vs : List B) (hs : Headers) (m0 : MD) (hne : vs ≠ []) (hl : lower k = k)
+    (hvs : isBin k = true → ∀ v ∈ vs, ∀ x ∈ v, x < 256) (h0 : asMetadata hs = some m0) (hk : k ∉ keysOf m0) :
+    asMetadata ((vs.map fun v => (k, if isBin k then b64enc v else v)) ++ hs) = some (m0 ++ [(k, vs)]) := by
+  induction vs with
+  | nil => simp at hne
+  | cons v rest ih =>
+    have hdv : if isBin k = true then b64dec (if isBin k then b64enc v else v) = some v else (if isBin k then b64enc v else v) = v := by
+      cases hb : isBin k with
+      | false => simp
+      | true => simpa using b64_roundtrip v (hvs hb v (by simp))
+    cases rest with
+    | nil =>
+      simp only [List.map_cons, List.map_nil, List.cons_append, List.nil_append]
+      rw [asMetadata_step k _ v hs m0 hl hdv h0, addValFront_new m0 k v hk]
+    | cons v2 rest2 =>
+      have ih' := ih (by simp) (fun hb w hw => hvs hb w (by simp [hw]))
+      simp only [List.map_cons, List.cons_append] at ih' ⊢
+      rw [asMetadata_step k _ v _ _ hl hdv ih', addValFront_last m0 k v (v2 :: rest2) hk]
+
+/-- well-formed metadata as the property quantifies over it: distinct lower-case keys that are not
+    reserved HTTP header names, at least one value per key, `-bin` values are byte strings -/
+def WF (md : MD) : Prop :=
+  (keysOf md).Nodup ∧ ∀ e ∈ md, lower e.1 = e.1 ∧ isReserved e.1 = false ∧ e.2 ≠ [] ∧ (isBin e.1 = true → ∀ v ∈ e.2, ∀ x ∈ v, x < 256)
+
+theorem md_roundtrip (md : MD) (h : WF md) : asMetadata (toHeaders md []) = some md.reverse := by
+  induction md with
+  | nil => rfl
+  | cons e rest ih =>
+    obtain ⟨k, vs⟩ := e
+    obtain ⟨hnd, hall⟩ := h
+    simp only [keysOf, List.map_cons, List.nodup_cons] at hnd
+    obtain ⟨hl, hr, hne, hb⟩ := hall (k, vs) (by simp)
+    have ihr := ih ⟨by simpa [keysOf] using hnd.2, fun e he => hall e (by simp [he])⟩
+    have hk : k ∉ keysOf rest.reverse := by
+      simp only [keysOf, List.map_reverse, List.mem_reverse]; exact hnd.1
+    have := asMetadata_block k vs (toHeaders rest []) rest.reverse hne hl hb ihr hk
+    simp only at hl hr
+    simpa [toHeaders, hr] using this
+
 end Metadata
 
 namespace Metadata
